@@ -129,7 +129,7 @@ static std::string handle(const Toks & t)
     if (d == 2) { g2.make(ns); } else { g3.make(ns); }
     return "ok";
   }
-  if (op == "wg.set" || op == "wg.tr") {
+  if (op == "wg.set" || op == "wg.tr" || op == "wg.trq") {
     std::vector<long long> xs;
     for (size_t k = 1; k < t.size(); ++k) { xs.push_back(parseInt(t[k])); }
     if (dim == 0 || xs.size() != dim + 1) { throw vp::BadOp(); }
@@ -145,12 +145,15 @@ static std::string handle(const Toks & t)
       return "ok";
     }
     for (long long x : xs) { if (!fitsInt(x)) { throw vp::BadOp(); } }
+    // `wg.trq` (quiet): translate WITHOUT reading the index offset afterwards — a getter with a side effect (seeded change c15e:
+    // the accumulated offset is reduced lazily, inside getIndexOffsetAlongAxes()) is only visible across unobserved translations
+    const bool quiet = op == "wg.trq";
     if (dim == 2) {
       g2.g->translate(Slot<2>::CO(static_cast<int>(xs[0]), static_cast<int>(xs[1])), static_cast<int>(xs[2]));
-      return g2.off();
+      return quiet ? std::string("ok") : g2.off();
     }
     g3.g->translate(Slot<3>::CO(static_cast<int>(xs[0]), static_cast<int>(xs[1]), static_cast<int>(xs[2])), static_cast<int>(xs[3]));
-    return g3.off();
+    return quiet ? std::string("ok") : g3.off();
   }
   if (op == "wg.get") {
     std::vector<long long> xs;
